@@ -77,7 +77,7 @@ _ALL = {
              'transaction and never inside the block (T5a, F4, F5a), the manager never leaves a transaction open (T3), '
              'journal mode default is WAL with synchronous != OFF (P3).',
              'SIGKILL inside SQLite and page-cache behaviour are trusted (A2).'),
-    'C08': P(['F3', 'F4', 'F6', 'F7', 'F8', 'F9', 'F10'],
+    'C08': P(['F3', 'F4', 'F6', 'F7', 'F8', 'F9', 'F10', 'P7'],
              'typestate of the new value file over all exits (normal, Timeout, exception) + trigger table check',
              'Decides that a freshly written value file is referenced by a committed row or released on every exit '
              '(F3), every overwrite/delete releases the old file (F4), the rows whose files are released are exactly '
@@ -102,7 +102,7 @@ _ALL = {
              'insert/delete of the head share one transaction block (L2), the pulled file is released after commit '
              '(F4), expired heads use the common liveness predicate (X1); Deque/Index delegate positionally right (S6).',
              'Delivery order/exactly-once over interleavings follows from the block discipline only under A2.'),
-    'C11': P(['E6', ('I2', r'^(Deque|no-store)'), ('I1', r'^Deque\.'), ('L3', r'Deque\.'), ('R2', r'^Deque\.'), 'R3', ('P1', r'Deque'), ('S6', r'persistent\.Deque\.')],
+    'C11': P(['E6', 'I3', ('I2', r'^(Deque|no-store)'), ('I1', r'^Deque\.'), ('L3', r'Deque\.'), ('R2', r'^Deque\.'), 'R3', ('P1', r'Deque'), ('S6', r'persistent\.Deque\.')],
              'structural necessary conditions: policy none, append+trim in one retrying block, Timeout containment, state tuple',
              'Does NOT decide equivalence with collections.deque. Decides: a Deque never evicts or expires (E6); '
              'append/appendleft push, measure and trim the opposite side inside one retrying transaction, as does the '
@@ -125,7 +125,8 @@ _ALL = {
              'combine all results (S4); the limit is divided (S5); arguments are passed in the right positions (S6); '
              'hash recipe and shard directory names equal the released format (P3).',
              'Per-call equivalence with the unsharded cache over histories needs execution and is not decided.'),
-    'C14': P(['T4', ('F3', r'timeout-exit'), 'R1', 'R2', 'R3', 'R4', ('E4', r'timeout-carries-count')],
+    'C14': P(['T4', ('F3', r'timeout-exit'), 'R1', 'R2', 'R3', 'R4', ('E4', r'timeout-carries-count'),
+              ('L6', r'init-leaves|connect-autocommit')],
              'may-raise-Timeout fixpoint over the resolved call graph + busy-path protocol of the manager',
              'Decides that a busy BEGIN either loops (retry) or releases the caller\'s new file and raises Timeout with '
              'nothing else executed (T4, F3 timeout exit); retry is forwarded to every transaction entry and callee '
@@ -157,7 +158,7 @@ _ALL = {
              'a fixpoint in one pass (H3 - violated, known finding); all comparisons run in one transaction (H4); '
              'FanoutCache.check covers every shard (S4, S6).',
              'Convergence for arbitrary damage combinations beyond these structural conditions is not decided.'),
-    'C18': P(['P1', 'P2', 'P3', 'P4', 'P5', 'B5', 'B6', 'L6', ('I2', r'^(Cache|Disk|JSONDisk|no-store)')],
+    'C18': P(['P1', 'P2', 'P3', 'P4', 'P5', 'P6', 'P7', 'B5', 'B6', 'L6', ('I2', r'^(Cache|Disk|JSONDisk|no-store)')],
              'constant folding of the on-disk format against a pinned reference + state-tuple/constructor agreement',
              'Decides that pickled state matches the constructor for Cache/FanoutCache/Deque/Index (P1); settings are '
              'layered defaults < stored < arguments and counters inserted with OR IGNORE (P2); every on-disk format fact '
@@ -192,7 +193,8 @@ _EXTRA = {
            'a prefixed key is never cut out with character-set stripping (Q3).',
     'C13': ' Also: named sub-containers have one handle per name, created only when the name is absent (S7); no '
            'class-level mutable containers and no stores on class objects (I2).',
-    'C11': ' Also: each method delegates to the right primitive with the right side/sentinel/retry constants and '
+    'C11': ' Also: append/appendleft keep the length at min(n + 1, maxlen) for every maxlen including 0, decided on a '
+           'finite (maxlen, length) abstraction of the enumerated paths (I3). Each method delegates to the right primitive with the right side/sentinel/retry constants and '
            'rotate re-inserts exactly what it popped (I1, L3).',
     'C12': ' Also: the delegation table and the sentinel-based equality hold (I1, L3); alternate constructors set the '
            'instance fields __init__ sets, nothing is stored on the class (I2).',
@@ -202,7 +204,9 @@ _EXTRA = {
     'C17': ' Also: both directory scans run on every path and compare os.path.join-ed paths (H4).',
     'C18': ' Also: setting prefixes are stripped exactly and reset() writes through to the Settings table (B5, B6); '
            'connections are opened in autocommit mode with the object\'s timeout (L6); statements name only '
-           'tables and indexes that __init__ creates unconditionally and nothing drops (P5).',
+           'tables and indexes that __init__ creates unconditionally and nothing drops (P5); a FanoutCache passes its '
+           'shards only caller-supplied settings (P6 - violated for size_limit, known finding); tables, the unique '
+           'key index and the counter triggers are created on every path of __init__ (P7).',
     'C19': ' Also: every method performs exactly one downstream operation on every return path (D4); the memoize key '
            'hook stays user-level and the wrapper goes through the adapter methods (D5); the constructor does not '
            'mutate the configuration mapping shared by all backend instances (D6); no class-level mutable state (I2).',
